@@ -186,10 +186,12 @@ def run_one(scratch, h, timeout):
 PLAYBACK_TIMEOUT = 1500
 
 
-def playback(scratch, h):
+def playback(scratch, h, failed_checks=()):
     """Concrete playback of a failed harness: ask Kani for the concrete values of its counterexample, then run the harness
     natively (cargo kani playback: the real code compiled by rustc, kani::any() fed from the recorded values; stubs are NOT
-    applied, so stubbed callees run for real).  Returns {'outcome': 'reproduces'|'passes'|'none'|'error', ...}."""
+    applied, so stubbed callees run for real).  Returns {'outcome': 'reproduces'|'diverges'|'passes'|'none'|'error', ...}.
+    'reproduces' is claimed only when the native panic is one of the checks Kani reported as failed; a different panic (typically
+    because a callee that was stubbed for CBMC ran for real) is 'diverges' and is not counted as a replayed counterexample."""
     env = dict(os.environ, CARGO_NET_OFFLINE='true')
     res = {'outcome': 'none'}
     try:
@@ -217,9 +219,15 @@ def playback(scratch, h):
                            cwd=scratch, capture_output=True, text=True, env=env, timeout=PLAYBACK_TIMEOUT)
         out = p.stdout + p.stderr
         if re.search(r'test result: FAILED', out):
-            res['outcome'] = 'reproduces'
-            pm = re.search(r'panicked at [^\n]*\n[^\n]*', out)
-            res['detail'] = pm.group(0) if pm else ''
+            pm = re.search(r'panicked at ([^\n]*)\n(.*?)\n(?:note: |stack backtrace|\n)', out, re.S)
+            res['detail'] = ('panicked at %s: %s' % (pm.group(1).rstrip(':'), pm.group(2))) if pm else ''
+            msg = re.sub(r'\s+', '', pm.group(2)) if pm else ''
+            same = False
+            for d, _ in failed_checks:
+                dn = re.sub(r'\s+', '', d)
+                if dn and (dn in msg or msg in dn or (dn.startswith('indexoutofbounds') and msg.startswith('indexoutofbounds'))):
+                    same = True
+            res['outcome'] = 'reproduces' if same and msg else 'diverges'
         elif re.search(r'test result: ok\. 1 passed', out):
             res['outcome'] = 'passes'
             res['detail'] = 'the recorded values do not fail natively (the harness stubs a callee that runs for real in playback, or the failure is a Kani-only check)'
@@ -262,7 +270,7 @@ def run(harnesses, jobs=6):
                     results[futs[f]] = rr
             for h in todo:
                 if results[h]['status'] == 'fail' and not os.environ.get('VERIF_NO_PLAYBACK'):
-                    results[h]['playback'] = playback(scratch, h)
+                    results[h]['playback'] = playback(scratch, h, results[h].get('failed_checks', []))
             for h in todo:
                 if results[h]['status'] in ('ok', 'fail'):
                     json.dump(results[h], open(os.path.join(CACHE, '%s-%s.json' % (h, key)), 'w'))
